@@ -36,15 +36,15 @@ use super::*;
 pub mod mul {
 use super::*;
 //@@ SIG integer/mul/mul_word_in_place.rs
-//@@ SIG integer/mul/mul_dword_in_place.rs
-//@@ SIG integer/mul/multiply.rs
+//@@ SIG integer/mul_algos/mul_dword_in_place.rs
+//@@ SIG integer/mul_algos/multiply.rs
 // scratch sizing: opaque (see lib/mul_glue_stubs.rs)
 #[verifier::external_body]
 pub fn memory_requirement_exact(total_len: usize, smaller_len: usize) -> Layout { unimplemented!() }
 }
 pub mod sqr {
 use super::*;
-//@@ SIG integer/sqr/sqr.rs
+//@@ SIG integer/mul_algos/sqr.rs
 #[verifier::external_body]
 pub fn memory_requirement_exact(len: usize) -> Layout { unimplemented!() }
 }
